@@ -19,6 +19,10 @@ rng (all members are visited over the seeds), the thorough tier takes all of it.
                     another plain level: only the plain-voltage part of the entry snapshot forces the unrolled first pass
   fam_direct        (round 4) the builder interface called directly: with_repetition(0), operator orders of SimpleExpression
   fam_types         (round 4) numpy scalar / unsigned dtypes through the builder interface, shared template objects, hash-colliding keys
+  fam_trafo         (round 5, clause audit: "transformations that keep affinity" were never generated) the template is played
+                    through a Transformation: `global_transformation=` of create_program (Scaling / Offset / ParallelChannel /
+                    Linear mixing two channels / chains), ArithmeticPT (*, /, +, -, mapping - template, index dependent offsets)
+                    and ParallelChannelPT around the whole tree or around every hold; holds as AtomicMultiChannelPT, measurements
   fam_names         name coincidences: a swap mapping {i: j, j: i} around a hold, an index called like a channel, the identity
                     mapping of an index (m_i := i hands the shared scope object through under another name)
 """
@@ -441,6 +445,103 @@ def fam_types(thorough):
     return out
 
 
+def fam_trafo(thorough):
+    """round 5 (clause audit): `transformations that keep affinity` of the quantifier.  The tree of a case carries the voltages the
+    template DENOTES (after the transformation); the harness renders the pre-image (c17.py `_preimage`) and applies the
+    transformation: `gt` = global_transformation of create_program (default and linspace program alike), `wrap` nodes = ArithmeticPT /
+    ParallelChannelPT around a sub-template.  The transformed values reach hold_voltage as SimpleExpression arithmetic done by the
+    Transformation classes (expr * float, expr + float, matrix @ object array: np.float64 * expr + np.float64 * expr)."""
+    fam = 'trafo'
+    out = []
+    trees = [
+        IT('i', (0, 4, 1), H(1, a=('-1', {'i': '1/4'}), b='1/2')),
+        IT('j', (0, 3, 1), IT('i', (0, 3, 1), H(1, a=('0', {'i': '1/4', 'j': '1/8'}), b=('-1/2', {'j': '1/2'})))),
+        IT('j', (0, 2, 1), IT('i', (0, 3, 1), SEQ(H(1, a='-1/2', b='-1/4'), H(2, a=('-1', {'i': '1/4'}), b=('-1/2', {'j': '1/2'})),
+                                                  H(1, a='1/8', b='1/4')))),
+        SEQ(H(1, a='1/8', b='3/8'), REP(3, SEQ(H(1, a='1/8', b='3/8'), H(2, a='1/4', b='-3/8')))),
+        SEQ(IT('i', (0, 3, 1), H(1, a=('0', {'i': '1/4'}), b='1/2')), REP(2, IT('j', (0, 2, 1), H(1, a=('1', {'j': '1/4'}), b='1/2')))),
+        IT('i', (3, 4, 1), SEQ(H(1, a=('1/2', {'i': '1/4'}), b=('0', {'i': '-1/2'})), H(1, a='1', b='2'))),
+        IT('i', (5, 0, -2), REP(2, H(1, a=('0', {'i': '1/2'}), b=('1', {'i': '1'})))),
+    ]
+    if not thorough:
+        trees = trees[:5]
+    lin = lambda m: ['linear', ['a', 'b'], m]
+    kwarg_ops = [
+        [['scale', {'a': '2'}]], [['scale', {'a': '1/2', 'b': '-2'}]], [['offset', {'a': '1/2'}]], [['offset', {'a': '-1', 'b': '1/4'}]],
+        [['scale', {'a': '2'}], ['offset', {'a': '1/4'}]], [['offset', {'a': '1/4'}], ['scale', {'a': '2'}]],
+        [['par', {'c': '3/2'}]], [['scale', {'a': '2'}], ['par', {'c': '-1/2'}]],
+        [lin([['1', '1/2'], ['0', '1']])], [lin([['1', '1'], ['1', '-1']])], [lin([['0', '1'], ['1', '0']])],
+        [lin([['1', '0'], ['1/4', '1']]), ['offset', {'b': '1/2'}]],
+    ]
+    wrap_ops = [
+        ([['scale', {'a': '2', 'b': '1/2'}]], None), ([['scale', {'a': '-1/4'}]], 'div'), ([['offset', {'a': '1/2', 'b': '-1/4'}]], None),
+        ([['offset', {'b': '3/4'}]], 'sub'), ([['rsub', {'a': '1', 'b': '0'}]], None), ([['rsub', {'a': '1/2'}]], None),
+        ([['par', {'c': '3/2'}]], None), ([['scale', {'b': '2'}], ['offset', {'b': '1/4'}], ['par', {'c': '1/8'}]], None),
+        ([['chmap', {'a': 'b', 'b': 'a'}]], None), ([['chmap', {'a': 'b', 'b': 'a'}], ['scale', {'a': '2'}]], None),   # channel swap by MappingPT
+    ]
+
+    def with_c(tree, ops):
+        vals = {}
+        for op in ops:
+            if op[0] == 'par':
+                vals.update(op[1])
+        if not vals:
+            return tree, ['a', 'b']
+
+        def add(h):
+            h2 = {'t': 'hold', 'dur': h['dur'], 'v': dict(h['v'])}
+            for ch, val in vals.items():
+                h2['v'][ch] = {'k': 'plain', 'v': fs(val)}
+            return h2
+        return _map_holds(tree, add), ['a', 'b'] + sorted(vals)
+
+    def flags(t, n):
+        # every third member: holds as AtomicMultiChannelPT of one-channel ConstantPTs / with a measurement window
+        if n % 3 == 1:
+            return _map_holds(t, lambda h: dict(h, split=True))
+        if n % 3 == 2:
+            return _map_holds(t, lambda h: dict(h, meas=True))
+        return t
+
+    n = 0
+    for tree in trees:
+        for ops in kwarg_ops:
+            t, chans = with_c(tree, ops)
+            for order in (chans, chans[::-1]):
+                n += 1
+                out.append(dict(_run(flags(t, n), order, fam), gt=ops))
+        for ops, how in wrap_ops:
+            t, chans = with_c(tree, ops)
+            for k, order in enumerate((chans, chans[::-1])):
+                n += 1
+                whole = {'t': 'wrap', 'ops': ops, 'how': how, 'body': flags(t, n)}
+                out.append(_run(whole, order, fam))
+                per_hold = _map_holds(flags(t, n + 1), lambda h: {'t': 'wrap', 'ops': ops, 'how': how, 'body': h})
+                out.append(_run(per_hold, order, fam))
+        # an offset that depends on the innermost loop index of each hold (SimpleExpression + SimpleExpression in OffsetTransformation)
+        scopes = {id(h): p for h, p in _idx_in_scope(tree)}
+
+        def idx_off(h):
+            p = scopes[id(h)]
+            off = {'base': '1/4', 'coefs': {p[-1]: '1/2'}} if p else '1/4'
+            return {'t': 'wrap', 'ops': [['offset', {'a': off}]], 'how': None, 'body': h}
+        t = _map_holds(tree, idx_off)
+        out.append(_run(t, ['a', 'b'], fam))
+        out.append(dict(_run(t, ['b', 'a'], fam), gt=[['scale', {'a': '2', 'b': '-1'}]]))     # under a global transformation as well
+    # the value of a channel is the BARE loop index (the scope object shared by all holds of the loop body) and becomes the LEFT
+    # operand of the sum with an index dependent offset; the index is used again by the next hold (aliasing class of C17-2)
+    for name, other in (('i', 'j'), ('j', 'i')):
+        off = {'base': '1/4', 'coefs': {name: '1/2', other: '1/8'}}
+        bare = {'t': 'hold', 'dur': '1', 'v': {'a': {'k': 'aff', 'base': '1/4', 'coefs': {name: '3/2', other: '1/8'}, 'style': 5},
+                                               'b': {'k': 'aff', 'base': '0', 'coefs': {name: '1/4'}, 'style': 5}}}
+        h1 = {'t': 'wrap', 'ops': [['offset', {'a': off}]], 'how': None, 'body': bare}
+        h2 = H(1, a=('0', {name: '1/4'}), b=('1', {name: '1'}))
+        for chans in (['a', 'b'], ['b', 'a']):
+            out.append(_run(IT(other, (0, 2, 1), IT(name, (0, 3, 1), SEQ(h1, h2))), chans, fam))
+            out.append(_run(IT(name, (1, 4, 1), SEQ(IT(other, (0, 2, 1), h1), h2)), chans, fam))
+    return out
+
+
 def _first_idx(h):
     for v in h['v'].values():
         if v['k'] == 'aff':
@@ -451,9 +552,9 @@ def _first_idx(h):
 def families(rng, tier):
     thorough = tier != 'quick'
     out = []
-    strides = {'rep_entry': 8, 'equal_slope': 5, 'alias': 3, 'names': 2, 'scale': 3, 'single_pass': 4, 'rep_plain': 4, 'direct': 2, 'types': 1}
+    strides = {'rep_entry': 8, 'equal_slope': 5, 'alias': 3, 'names': 2, 'scale': 3, 'single_pass': 4, 'rep_plain': 4, 'direct': 2, 'types': 1, 'trafo': 5}
     for name, f in (('rep_entry', fam_rep_entry), ('equal_slope', fam_equal_slope), ('alias', fam_alias), ('names', fam_names),
-                    ('scale', fam_scale), ('single_pass', fam_single_pass), ('rep_plain', fam_rep_plain), ('direct', fam_direct), ('types', fam_types)):
+                    ('scale', fam_scale), ('single_pass', fam_single_pass), ('rep_plain', fam_rep_plain), ('direct', fam_direct), ('types', fam_types), ('trafo', fam_trafo)):
         cases = f(thorough)
         if not thorough:
             k = strides[name]
